@@ -1,7 +1,7 @@
 (* Line protocol driver for the C09 lexer model.  One case per input line:
      fx=<0|1>;in=<hex bytes>
    Reply (same canonical format as harness/src/bin/c09.rs prints for the implementation):
-     ok <item> <item> ... ## <side error> ...
+     ok <item> <item> ... ## <side error> ... ## U:<start>:<ok:<hex>|panic:<site>> ...   (unescape of every escaped string token)
      panic:<restore_char|slice>
      fuel
    item:  T:<start>:<end>:<kind>[:<payload>]   |   E:<start>:<end>:<error>[:<code point>]
@@ -87,6 +87,18 @@ let item = function
   | ITok (t, a, b) -> Printf.sprintf "T:%d:%d:%s" (int_of_nat a) (int_of_nat b) (tok t)
   | IErr (c, a, b) -> Printf.sprintf "E:%d:%d:%s" (int_of_nat a) (int_of_nat b) (err c)
 
+(* the grammar applies StringLiteral::unescape to every escaped string token *)
+let unesc fx = function
+  | ITok (TStr (false, t), a, _) ->
+      Printf.sprintf " U:%d:%s" (int_of_nat a)
+        (match unescape fx t with
+         | Ok r -> "ok:" ^ hex_of_bytes r
+         | Panic PIndex -> "panic:index"
+         | Panic PInvalidEscape -> "panic:invalid_escape"
+         | Panic _ -> "panic:?"
+         | Fuel -> "fuel")
+  | _ -> ""
+
 let side e = Printf.sprintf "E:%d:%d:%s" (int_of_nat e.e_start) (int_of_nat e.e_end) (err e.e_code)
 
 let () =
@@ -100,8 +112,10 @@ let () =
           match lex fx input with
           | Ok (items, errs) ->
               String.concat " " ("ok" :: List.map item items) ^ " ##" ^ String.concat "" (List.map (fun e -> " " ^ side e) errs)
+              ^ " ##" ^ String.concat "" (List.map (unesc fx) items)
           | Panic PRestoreChar -> "panic:restore_char"
           | Panic PSlice -> "panic:slice"
+          | Panic _ -> "panic:?"
           | Fuel -> "fuel"
         in
         print_endline out
